@@ -26,7 +26,7 @@ CLAIMS = {
         "note": "Trusted as C07.",
     },
     "C09": {
-        "text": "Theorems over the Extract model (29, closed under the global context): per converter, from_words (as_words v) = v on exact domains - str, key, path (not starting with ~, "
+        "text": "Theorems over the Extract model (32, closed under the global context): per converter, from_words (as_words v) = v on exact domains - str, key, path (not starting with ~, "
                 "under the expanduser hypothesis), words, strings, qstr, bool, int (py_int_of_str (str z) = z; bounds), ints, single and multi choice, None/Auto; as_words refuses "
                 "out-of-domain lists / None / unknown choices; at scope level extract (format m p) = p for every well-formed master incl. nested .multiple definitions and scopes and "
                 "every p in the master's domain (C09_scope, compositional over leaf round trips). Refutations by witness are the open findings (strings None, ~ expansion, single None "
